@@ -140,7 +140,7 @@ LAYERS = ["block", "local", "arg", "matter", "tglobal", "eglobal"]
 
 
 @cond(
-    pre=["0 <= hi < 6", "0 <= lo < 7", "hi < lo"],
+    pre=["0 <= hi < 6", "0 <= lo < 7", "hi < lo", "0 <= sv < 3"],
     timeout=300,
     shard={"name": ["v", "now"]},
     covers="a name bound to nil (or false, or an empty string) in a higher-priority layer shadows every lower layer: the lower binding must not show through",
